@@ -81,12 +81,41 @@ func vC14Run(bkt *vBucket, scenario int) ([]vRow, error, int64) {
 		}
 		rows, err := vScan(r)
 		return rows, err, 0
+	case 5: // descending scan below a bound that lies above every key (the cursor is re-seated at the last key)
+		r, err := vOpen(bkt.client(1), vTableOpts{bf: 2, readOnly: true}, 500)
+		if err != nil {
+			return nil, err, 0
+		}
+		rows, err := vScanIdx(r, "desc 2", []interface{}{int64(100)})
+		return rows, err, 0
+	case 6: // a transaction: begin, insert, commit (the caller rolls back when it fails)
+		r, err := vOpen(bkt.client(1), vTableOpts{bf: 2}, 500)
+		if err != nil {
+			return nil, err, 0
+		}
+		if err := r.Begin(vCtx); err != nil {
+			return nil, err, 0
+		}
+		vC14Handle = r
+		if err := vIns(r, 1000, int64(6), int64(60), nil); err != nil {
+			return nil, err, 0
+		}
+		if err := r.Commit(vCtx); err != nil {
+			vC14CommitFailed = true
+			return nil, err, 0
+		}
+		rows, err := vScan(r)
+		return rows, err, 6
 	}
 	return nil, nil, 0
 }
 
+var vC14Handle *VirtualTable
+var vC14CommitFailed bool
+
 func VerifH_C14_faults() {
-	scenario := symChoice("scenario", 5)
+	vC14Handle = nil
+	scenario := symChoice("scenario", 7)
 	unmerged := symChoice("unmerged", 2) == 1
 	// reference: fault-free
 	ref := vC14Bucket(unmerged)
@@ -107,12 +136,32 @@ func VerifH_C14_faults() {
 	bkt.faultOn, bkt.faultAt = true, bkt.reqs+f
 	bkt.faultDeadline = symChoice("kind", symParam("kinds", 2)) == 1 // transport error | expired deadline
 	bkt.faultPersistent = symChoice("persistent", 2) == 1
+	vC14Handle, vC14CommitFailed = nil, false
 	got, gerr, wrote := vC14Run(bkt, scenario)
 	bkt.faultOn = false
 	symObserve("failed", gerr != nil)
 	// an error or the complete, correct result; never a silently truncated one
 	if gerr == nil {
 		symAssert(vRowsEq(got, want), "result-complete-or-error")
+	}
+	if scenario == 6 && vC14CommitFailed {
+		// the failed transaction is rolled back (SQLite calls xRollback): the
+		// connection shows the rows it had before, and the same transaction
+		// goes through once the fault is gone
+		r := vC14Handle
+		symAssert(r.Rollback() == nil, "rollback-ok")
+		rows, err := vScan(r)
+		symAssert(err == nil, "scan-after-rollback-ok")
+		for _, x := range rows {
+			symAssert(!symDeepEq(x.k, int64(6)), "failed-transaction-leaves-no-row-behind")
+		}
+		symAssert(r.Begin(vCtx) == nil, "begin-again-ok")
+		symAssert(vIns(r, 1000, int64(6), int64(60), nil) == nil, "insert-again-ok")
+		symAssert(r.Commit(vCtx) == nil, "commit-again-ok")
+		again, err := vFreshRows(bkt)
+		symAssert(err == nil, "open-after-retry-ok")
+		symAssert(vRowsEq(again, all), "retried-transaction-visible")
+		symReach("retried")
 	}
 	// once the fault clears a new connection sees all previously committed data...
 	after, err := vFreshRows(bkt)
